@@ -429,6 +429,84 @@ func c09g2Forward(fn *ssa.Function, curPat string) eng.Guard {
 		}
 		bo, ok := ifi.Cond.(*ssa.BinOp)
 		if !ok {
+			// the comparison made by a function of the package that returns its outcome as a bool
+			// (possibly with an error): every return is the comparison, or the constant that means
+			// 'not behind' (nothing recorded to compare with)
+			tested := eng.Normalize(ifi.Cond).Val
+			res := tested
+			if ex, isEx := res.(*ssa.Extract); isEx && ex.Index == 0 {
+				res = ex.Tuple
+			}
+			cl, isCall := res.(*ssa.Call)
+			if !isCall {
+				continue
+			}
+			callee := cl.Call.StaticCallee()
+			if callee == nil || len(callee.Blocks) == 0 || callee.Pkg != eng.TopFunc(fn).Pkg {
+				continue
+			}
+			argIsNew := func(v ssa.Value) bool {
+				p, isP := v.(*ssa.Parameter)
+				if !isP {
+					return false
+				}
+				for i, q := range callee.Params {
+					if q == p && i < len(cl.Call.Args) {
+						return isNew(cl.Call.Args[i])
+					}
+				}
+				return false
+			}
+			dir, okAll, n := 0, true, 0 // dir: +1 the helper answers 'not behind', -1 it answers 'behind'
+			for _, r := range eng.Returns(callee) {
+				if r.Block().Comment == "recover" || len(r.Results) == 0 {
+					continue
+				}
+				if ev := len(r.Results) - 1; ev > 0 && !eng.IsNilConst(r.Results[ev]) {
+					continue // an error return: the caller does not act on the flag
+				}
+				n++
+				switch x := r.Results[0].(type) {
+				case *ssa.Const:
+					// decided below, once the direction is known
+				case *ssa.BinOp:
+					d := 0
+					switch {
+					case (x.Op == token.LSS || x.Op == token.LEQ) && re.MatchString(eng.ExprDeep(x.X)) && argIsNew(x.Y),
+						(x.Op == token.GTR || x.Op == token.GEQ) && argIsNew(x.X) && re.MatchString(eng.ExprDeep(x.Y)):
+						d = 1
+					case (x.Op == token.LSS || x.Op == token.LEQ) && argIsNew(x.X) && re.MatchString(eng.ExprDeep(x.Y)),
+						(x.Op == token.GTR || x.Op == token.GEQ) && re.MatchString(eng.ExprDeep(x.X)) && argIsNew(x.Y):
+						d = -1
+					}
+					if d == 0 || (dir != 0 && d != dir) {
+						okAll = false
+					}
+					dir = d
+				default:
+					okAll = false
+				}
+			}
+			if !okAll || dir == 0 || n == 0 {
+				continue
+			}
+			// constants must mean 'not behind'
+			for _, r := range eng.Returns(callee) {
+				if r.Block().Comment == "recover" || len(r.Results) == 0 {
+					continue
+				}
+				if ev := len(r.Results) - 1; ev > 0 && !eng.IsNilConst(r.Results[ev]) {
+					continue
+				}
+				if k, isC := r.Results[0].(*ssa.Const); isC {
+					if (eng.Expr(k) == "true") != (dir == 1) {
+						okAll = false
+					}
+				}
+			}
+			if okAll {
+				g.Edges = append(g.Edges, eng.BoolEdges(tested, dir == 1)...)
+			}
 			continue
 		}
 		fwdOnTrue := false
